@@ -342,6 +342,15 @@ def run_trace(ctx, rows, bait, trace):
     if r is None:
         ctx.count("direct:lookup-none")
         return
+    # two what-if premises are taken on the result at the start and consulted again after every operation (a
+    # resolver that keeps its premises): what they report is always the arithmetic of the result as it is NOW
+    from tola.assembly import build_utils
+
+    held = []
+    if len(r.rows) > 1 and hasattr(r.rows[0], "strand") and hasattr(r.rows[-1], "strand"):
+        held = [build_utils.StartOverhangPremise(r, r.rows[0]), build_utils.EndOverhangPremise(r, r.rows[-1])]
+        for pr in held:
+            pr.improves(1)  # (first consultation; checked by the monitor on improves)
     for op, arg in trace:
         if not r.rows:
             break
@@ -350,6 +359,10 @@ def run_trace(ctx, rows, bait, trace):
         except Exception as e:  # noqa: BLE001 - the operation does not accept this state
             ctx.count(f"direct:op-raised:{op}:{type(e).__name__}")
             break
+        if r.rows and len(r.rows) > 1:
+            for pr in held:
+                pr.improves(1)
+                ctx.count("direct:held-premise-consulted-after-an-operation")
 
 
 def run_direct(shard, ctx):
@@ -416,6 +429,7 @@ def gates(c, tier):
         "tracked-objects": 1000,
         "premise-figures-checked:start": 200,
         "premise-figures-checked:end": 200,
+        "direct:held-premise-consulted-after-an-operation": 5000,
         "op:discard_start": 50,
         "op:discard_end": 50,
         "insitu:states": 500,
